@@ -62,6 +62,7 @@
 From Coq Require Import List Bool Arith NArith ZArith QArith.
 From TV Require Import Num.Num Gen.BlockGen Model.Block.
 From TV Require Import Model.FiltersBase Gen.FiltersGen Model.ItemFilters Proofs.ItemFiltersBase Proofs.ItemFiltersHiddenBlock Proofs.ItemFiltersHidden Model.BlockAlg Proofs.BlockAlgBlind.
+From TV Require Import Model.BlockAbs Proofs.BlockAbsLocal.
 From TV Require Import Num.QNum Model.Common Model.Leaf Model.Root Proofs.LeafProofs Proofs.HiddenRoot.
 From TV Require Import Model.Engine Model.EngineToy Proofs.EngineMemo Proofs.EngineDirty Proofs.EngineToyProofs
   Proofs.EngineHidden Proofs.EngineBlind Proofs.EngineHiddenToy Proofs.EngineHistory.
@@ -371,6 +372,14 @@ Proof.
   intros T N pre abs_child Hloc. split; [apply block_alg_sets_zero_on_hidden; exact Hloc|].
   intros n. exists (Z.of_nat n). reflexivity.
 Qed.
+
+(* the premise holds for the REAL absolute-item routine (Model/BlockAbs.v abs_child_block, built from the translated kernel
+   Gen/AbsPosGen.v; the instance the whole-tree correspondence `vh blocktree cases` ties to the implementation): the block
+   algorithm with it stores only `Layout::with_order(order)` on display:none children *)
+Theorem C05_block_real_sets_zero_on_hidden :
+  forall (T : Type) (N : Num T) (pre : BStyle T -> BIn T -> BIn T),
+    SetsZeroOnHidden (BStyle T) (BIn T) (ChildOut T) (BLayout T) bs_is_none (block_alg pre abs_child_block) b_zeroish.
+Proof. intros T N pre. apply block_alg_sets_zero_on_hidden. apply abs_child_block_local. Qed.
 
 (* engines made of block containers (sel s = true) and leaves: replacing display:none subtrees changes nothing elsewhere *)
 Theorem C05_block_engine_hidden_invisible :
@@ -780,6 +789,7 @@ Print Assumptions C05_grid_items_ignore_hidden.
 Print Assumptions C05_model_filters_are_source.
 Print Assumptions C05_block_algorithm_hidden_blind.
 Print Assumptions C05_block_algorithm_sets_zero_on_hidden.
+Print Assumptions C05_block_real_sets_zero_on_hidden.
 Print Assumptions C05_block_engine_hidden_invisible.
 Print Assumptions C05_flex_algorithm_shape.
 Print Assumptions C05_flex_model_loops_are_source.
